@@ -34,6 +34,12 @@ def _worker(job):
                     tb=traceback.format_exc()[-3000:])
 
 
+def known_keys(pid):
+    """keys of recorded (unrepaired) findings for this property: harnesses exclude exactly these classes
+    from the main run and re-confirm them in a separate 'known:<key>' job."""
+    return set(k['key'] for k in load_known() if k['property'] == pid and k.get('status', 'known') == 'known')
+
+
 def load_known():
     p = os.path.join(VERIF, 'known_findings.json')
     if not os.path.exists(p): return []
@@ -99,7 +105,9 @@ def main(argv=None):
             inconclusive += r['inconclusive']
     known = [k for k in load_known() if k['property'] == pid]
     violations = []; known_hits = {}; nonrepro = []
-    classify = getattr(mod, 'classify', lambda f: None)
+    def _default_classify(f):
+        return f['harness'].split(':', 1)[1].split('@')[0] if f['harness'].startswith('known:') else None
+    classify = getattr(mod, 'classify', _default_classify)
     seen_keys = set()
     for f in failures:
         key = classify(f)
